@@ -94,8 +94,8 @@ TEXT = {
     },
     "C19": {
         "technique": "exhaustive small-scope enumeration of negotiation scripts + property-based testing (rapid) of large capability sets, against a negotiation model",
-        "level_text": "All 9216 combinations of wanted subset x SASL mechanism x advertised subset x server reply x SASL outcome x stray AUTHENTICATE are run as live sessions and compared line by line with a model of the negotiation (REQ as a set, AUTHENTICATE payload per mechanism, CAP END after every terminal step, HasCapability/SupportsCapability at every step); random sets of 20-120 long names force the REQ to be split over several lines. A sessions leg runs 2-3 negotiations on one client, each with its own wanted set / mechanism (installed through Config() on the existing client), advertised set, reply and outcome, with links that drop before the LS reply, after the request, after AUTHENTICATE <mechanism> or after the SASL data, and a capability the application requests itself through Conn.Cap; the model is per connection. A regression leg replays the histories of the two repaired C19 defects.",
-        "level_note": "Exhaustive only over the stated universe {a,b,c,sasl}; multi-line LS (CAP 302) is not generated because the client asks for plain CAP LS.",
+        "level_text": "All 13 824 combinations of wanted subset x SASL mechanism x advertised subset x server reply x SASL outcome x stray AUTHENTICATE are run as live sessions and compared line by line with a model of the negotiation (REQ as a set, AUTHENTICATE payload per mechanism, CAP END after every terminal step, HasCapability/SupportsCapability at every step); random sets of 20-120 long names force the REQ to be split over several lines. A sessions leg runs 2-3 negotiations on one client, each with its own wanted set / mechanism (installed through Config() on the existing client), advertised set, reply and outcome, with links that drop before the LS reply, after the request, after AUTHENTICATE <mechanism> or after the SASL data, and a capability the application requests itself through Conn.Cap; the model is per connection. A regression leg replays the histories of the two repaired C19 defects.",
+        "level_note": "Exhaustive only over the stated universe {a,b,z,sasl}; multi-line LS (CAP 302) is not generated because the client asks for plain CAP LS.",
     },
     "C10": {
         "technique": "property-based testing (rapid) on two clocks: in-package virtual-clock sequences against interval arithmetic over Hybrid's rule, and concurrent real-clock wire scenarios with delay-independent and one-sided timing oracles",
